@@ -107,6 +107,11 @@ fn check_mapping(c: &MapCase, obs: &mut Obs) {
         }
     }
     obs.outcome(&(c.font.as_str(), table.len(), gpr));
+    // MonoTextStyle::new is a second entry point to the builder
+    let a = embedded_graphics::mono_font::MonoTextStyle::new(font, C::TEXT);
+    if a != char_style::<C>(font, true, false, 0, 0) || a != char_style_font_last::<C>(font, true, false, 0, 0) {
+        obs.fail("style-constructors-agree", format!("{}: MonoTextStyle::new differs from the builder", c.font));
+    }
 }
 
 // ---- B. rendering with built-in fonts ---------------------------------------------------------
